@@ -26,6 +26,9 @@ pub struct Hit {
 }
 
 struct ScanState {
+    /// (size, fnv) of whole blocks that are documented exemptions
+    exempt: [(usize, u64); 4],
+    exempt_hits: u64,
     needle: [u8; 32],
     hits: [Option<Hit>; MAX_HITS],
     n_hits: usize,
@@ -42,7 +45,7 @@ thread_local! {
     static WATCH_HI: Cell<u64> = const { Cell::new(0) };
     static WATCH_HITS: Cell<u64> = const { Cell::new(0) };
     static SCANNING: Cell<bool> = const { Cell::new(false) };
-    static SCAN: UnsafeCell<ScanState> = const { UnsafeCell::new(ScanState { needle: [0; 32], hits: [None; MAX_HITS], n_hits: 0, freed_blocks: 0, freed_bytes: 0 }) };
+    static SCAN: UnsafeCell<ScanState> = const { UnsafeCell::new(ScanState { exempt: [(0, 0); 4], exempt_hits: 0, needle: [0; 32], hits: [None; MAX_HITS], n_hits: 0, freed_blocks: 0, freed_bytes: 0 }) };
 }
 
 #[inline]
@@ -76,8 +79,12 @@ fn note_alloc(size: usize) {
     });
 }
 
+/// Scans a block that is about to be released. Returns true when it contains the needle
+/// (exempt or not): the caller then zeroes it, so that stale copies of an already reported
+/// (or exempt) block cannot show up later inside unrelated, partly uninitialised blocks.
 #[inline]
-unsafe fn scan_block(ptr: *const u8, size: usize) {
+unsafe fn scan_block(ptr: *const u8, size: usize) -> bool {
+    let mut found = false;
     let _ = SCANNING.try_with(|s| {
         if !s.get() {
             return;
@@ -94,15 +101,20 @@ unsafe fn scan_block(ptr: *const u8, size: usize) {
             let mut i = 0;
             while i + 32 <= size {
                 if block[i] == first && block[i..i + 32] == st.needle {
+                    found = true;
+                    let mut h: u64 = 0xcbf2_9ce4_8422_2325;
+                    for b in block {
+                        h ^= *b as u64;
+                        h = h.wrapping_mul(0x0000_0100_0000_01b3);
+                    }
+                    if st.exempt.iter().any(|(l, fp)| *l == size && *fp == h) {
+                        st.exempt_hits += 1;
+                        return;
+                    }
                     if st.n_hits < MAX_HITS {
                         let mut head = [0u8; 64];
                         let k = size.min(64);
                         head[..k].copy_from_slice(&block[..k]);
-                        let mut h: u64 = 0xcbf2_9ce4_8422_2325;
-                        for b in block {
-                            h ^= *b as u64;
-                            h = h.wrapping_mul(0x0000_0100_0000_01b3);
-                        }
                         st.hits[st.n_hits] = Some(Hit { size, offset: i, head, fp: h });
                         st.n_hits += 1;
                     }
@@ -112,6 +124,12 @@ unsafe fn scan_block(ptr: *const u8, size: usize) {
             }
         });
     });
+    found
+}
+
+#[inline]
+fn scanning_armed() -> bool {
+    SCANNING.try_with(|s| s.get()).unwrap_or(false)
 }
 
 unsafe impl GlobalAlloc for QpvAlloc {
@@ -124,12 +142,24 @@ unsafe impl GlobalAlloc for QpvAlloc {
         System.alloc_zeroed(layout)
     }
     unsafe fn dealloc(&self, ptr: *mut u8, layout: Layout) {
-        scan_block(ptr, layout.size());
+        if scan_block(ptr, layout.size()) {
+            std::ptr::write_bytes(ptr, 0, layout.size());
+        }
         System.dealloc(ptr, layout)
     }
     unsafe fn realloc(&self, ptr: *mut u8, layout: Layout, new_size: usize) -> *mut u8 {
-        // the old block may be released (moved) or truncated: scan its current contents
-        scan_block(ptr, layout.size());
+        if scanning_armed() {
+            // behave like GlobalAlloc's default realloc (allocate, copy, release the old block), so
+            // that every growth of a buffer is a release of its old block -- exactly what the
+            // repo's own scanning allocator observes
+            let new_layout = Layout::from_size_align_unchecked(new_size, layout.align());
+            let new_ptr = self.alloc(new_layout);
+            if !new_ptr.is_null() {
+                std::ptr::copy_nonoverlapping(ptr, new_ptr, layout.size().min(new_size));
+                self.dealloc(ptr, layout);
+            }
+            return new_ptr;
+        }
         if new_size > layout.size() {
             note_alloc(new_size - layout.size());
         }
@@ -172,14 +202,20 @@ pub fn account_watching<T>(limit: Option<u64>, lo: u64, hi: u64, f: impl FnOnce(
 
 pub struct ScanReport {
     pub hits: Vec<Hit>,
+    pub exempt_hits: u64,
     pub freed_blocks: u64,
     pub freed_bytes: u64,
 }
 
 /// Run `f` with free-block scanning for `needle` armed on this thread.
-pub fn scan_frees<T>(needle: [u8; 32], f: impl FnOnce() -> T) -> (T, ScanReport) {
+pub fn scan_frees<T>(needle: [u8; 32], exempt: &[(usize, u64)], f: impl FnOnce() -> T) -> (T, ScanReport) {
     SCAN.with(|cell| unsafe {
         let st = &mut *cell.get();
+        st.exempt = [(0, 0); 4];
+        for (i, e) in exempt.iter().take(4).enumerate() {
+            st.exempt[i] = *e;
+        }
+        st.exempt_hits = 0;
         st.needle = needle;
         st.n_hits = 0;
         st.hits = [None; MAX_HITS];
@@ -191,7 +227,7 @@ pub fn scan_frees<T>(needle: [u8; 32], f: impl FnOnce() -> T) -> (T, ScanReport)
     SCANNING.with(|c| c.set(false));
     let rep = SCAN.with(|cell| unsafe {
         let st = &mut *cell.get();
-        let rep = ScanReport { hits: st.hits.iter().flatten().copied().collect(), freed_blocks: st.freed_blocks, freed_bytes: st.freed_bytes };
+        let rep = ScanReport { hits: st.hits.iter().flatten().copied().collect(), exempt_hits: st.exempt_hits, freed_blocks: st.freed_blocks, freed_bytes: st.freed_bytes };
         st.needle = [0; 32];
         rep
     });
